@@ -6,9 +6,10 @@ export GOFLAGS=-mod=mod GOPROXY=off GOSUMDB=off GOTOOLCHAIN=local
 cd "$wt" || exit 3
 demo_path=$(python3 -c "import json;print(json.load(open('$out/meta.json')).get('demo_path','').split()[0])")
 demo_cmd=$(python3 -c "import json;print(json.load(open('$out/meta.json')).get('demo_cmd',''))")
+demo_cmd=${demo_cmd//<repo>/$wt}; demo_cmd=${demo_cmd//\/repo/$wt}
 echo "demo_path=$demo_path demo_cmd=$demo_cmd"
 # start from a clean tree, apply the patch, place the demo
-git stash -q -u 2>/dev/null; git checkout -q -- . ; git clean -fdq
+git checkout -q -- . ; git clean -fdq
 git apply "$out/patch.diff" || { echo "PATCH DOES NOT APPLY"; exit 1; }
 cp "$out/demo_test.go" "$wt/$demo_path" 2>/dev/null || cp "$out/"*demo*.go "$wt/$demo_path"
 go build ./... || { echo "BUILD FAILS"; exit 1; }
